@@ -25,6 +25,7 @@ class State:
         self.consumed = 0
         self.env = {}        # local name -> value
         self.trace = []
+        self.eofq = []       # token ids read through `?` (end of file aborts the decode there)
 
     def fork(self):
         return copy.deepcopy(self)
@@ -65,8 +66,12 @@ class Decoder:
 
     # ---- expression evaluation (may consume tokens) -> value
     def ev(self, e, st):
-        e, _ = try_inner(e)
+        e, was_try = try_inner(e)
         e = peel_keep_clone(e)
+        if was_try and e.get("k") == "MethodCall" and e["name"] in ("get_any", "peek_any"):
+            r = e["recv"]
+            if r.get("k") == "Path" and r.get("res") == self.lex:
+                st.eofq.append(st.consumed)
         k = e.get("k")
         if k == "Path":
             if e.get("res_kind") == "Local":
@@ -101,6 +106,14 @@ class Decoder:
                     return st.peek()
                 raise Unextractable(f"unknown lexer helper `{name}`")
             rv = self.ev(recv, st)
+            if name == "and_then" and e["args"]:
+                # `tok_result.and_then(|t| t.as_<kind>())`
+                cl = peel_keep_clone(e["args"][0])
+                if cl.get("k") == "Closure":
+                    body = peel_keep_clone(cl["body"])
+                    if body.get("k") == "MethodCall" and body["name"] in AS:
+                        return ("as", AS[body["name"]], rv)
+                raise Unextractable("and_then with an unknown closure")
             if name in ("clone", "get", "value", "get_cloned", "to_owned", "token", "into", "get_mut"):
                 return rv
             if name in AS:
@@ -356,4 +369,16 @@ def decode_arm(F, body, env, lex_name="lex"):
     for st1, v in d.outcomes:
         seq, names = name_tokens(st1)
         res.append((seq, sym(v, names)))
+        # optional look-aheads: tokens read through `?` whose kind the successful path never established
+        opt = sorted({i for i in st1.eofq if i < len(st1.toks) and st1.toks[i] is None} | {i for i in st1.eofq if i >= len(st1.toks)})
+        EOF_OPTIONAL[id(res[-1][1]) if isinstance(res[-1][1], (dict, list)) else (tuple(seq), str(res[-1][1]))] = (opt, st1.consumed)
     return res
+
+
+EOF_OPTIONAL = {}
+
+
+def eof_optional(seq, symv):
+    """(token positions read through `?` that the path did not depend on, number of consumed tokens)"""
+    key = id(symv) if isinstance(symv, (dict, list)) else (tuple(seq), str(symv))
+    return EOF_OPTIONAL.get(key, ([], len(seq)))
